@@ -153,7 +153,7 @@ func (p *Polygon) arcVertex(i int) bool {
 	// work out the angle
 	ac := a.Sub(c).Normalize()
 	bc := b.Sub(c).Normalize()
-	dtheta := -side * math.Acos(ac.Dot(bc)) / float64(v.facets)
+	dtheta := -side * math.Acos(Clamp(ac.Dot(bc), -1, 1)) / float64(v.facets)
 	// rotation matrix
 	m := Rotate(dtheta)
 	// radius vector
@@ -203,7 +203,7 @@ func (p *Polygon) smoothVertex(i int) bool {
 	// work out the angle
 	v0 := vp.vertex.Sub(v.vertex).Normalize()
 	v1 := vn.vertex.Sub(v.vertex).Normalize()
-	theta := math.Acos(v0.Dot(v1))
+	theta := math.Acos(Clamp(v0.Dot(v1), -1, 1))
 	// distance from vertex to circle tangent
 	d1 := v.radius / math.Tan(theta/2.0)
 	if d1 > vp.vertex.Sub(v.vertex).Length() || d1 > vn.vertex.Sub(v.vertex).Length() {
